@@ -124,4 +124,42 @@ VH_GROUP(views)
 #endif
 }
 
+// function-backed (virtual_2d_locator) source views: color_converted_view goes through the locator's add_deref hook,
+// which has to carry position and per-dimension steps of transposed / stepped views unchanged
+struct C09VirtualFn
+{
+    using const_t = C09VirtualFn; using value_type = gil::rgb8_pixel_t; using reference = value_type; using const_reference = value_type;
+    using argument_type = gil::point_t; using result_type = reference;
+    static constexpr bool is_mutable = false;
+    result_type operator()(argument_type const& p) const { return value_type((unsigned char)(17 * p.x + 3), (unsigned char)(29 * p.y + 5), (unsigned char)(7 * p.x + 13 * p.y + 1)); }
+};
+template <class DstImg> static void virtual_pair(vh::Ctx& ctx, const char* dname)
+{
+    using loc_t = gil::virtual_2d_locator<C09VirtualFn, false>;
+    using view_t = gil::image_view<loc_t>;
+    ViewPair<gil::rgb8_image_t, DstImg> p{ctx};
+    p.pid = std::string("virtual_rgb8>") + dname;
+    long img = 0;
+    for (int w = 1; w <= 6; w += 5) for (int h = 2; h <= 9; h += 7, ++img)
+    {
+        view_t v(w, h, loc_t(gil::point_t(0, 0), gil::point_t(1, 1), C09VirtualFn()));
+        p.check_view(v, "plain", img);
+        p.check_view(gil::transposed_view(v), "transposed", img);
+        p.check_view(gil::rotated90cw_view(v), "rot90cw", img);
+        p.check_view(gil::rotated90ccw_view(v), "rot90ccw", img);
+        p.check_view(gil::flipped_left_right_view(gil::transposed_view(v)), "transposed.flipLR", img);
+        p.check_view(gil::subsampled_view(gil::transposed_view(v), 2, 1), "transposed.subsampled21", img);
+        p.check_view(gil::subsampled_view(gil::rotated180_view(v), 1, 3), "rot180.subsampled13", img);
+    }
+    ++ctx.witness["virtual_source_views"];
+}
+VH_GROUP(virtual_views)
+{
+    vh::ubsan_counts() = false;
+    if (ctx.take()) virtual_pair<gil::gray8_image_t>(ctx, "gray8");
+    if (ctx.take()) virtual_pair<gil::rgba8_image_t>(ctx, "rgba8");
+    if (ctx.take()) virtual_pair<gil::cmyk8_image_t>(ctx, "cmyk8");
+    if (ctx.take()) virtual_pair<gil::rgb16_image_t>(ctx, "rgb16");
+}
+
 VH_MAIN
